@@ -584,6 +584,31 @@ func c04(env *core.Env, kind string, faulty bool) {
 			env.Failf("C04/final/bytes", "committed blob has %d bytes that differ from the %d bytes written (first difference at %d)", len(data), L, firstDiff(data, r.content))
 		}
 	}
+	// The closing request of a finished upload arrives once more, asking for another
+	// digest (a retry gone astray): whether the registry still knows the session is its
+	// business, but it cannot succeed, and it leaves what was committed as it is.
+	if c.Bool("closing-request-again-wrong-digest", 1, 3) {
+		wrong := reg.Sha256(append([]byte("not-"), r.content...))
+		if w4, err := r.st.Reg.PushBlobChunkedResume(r.ctx, r.repo, r.w.ID(), int64(L), r.hint); err == nil {
+			_, cerr := w4.Commit(wrong)
+			w4.Close()
+			env.Op(fmt.Sprintf("closing-again-wrong-digest:%v", cerr == nil))
+			if cerr == nil {
+				env.Failf("C04/commit/wrong-digest-accepted", "a second Commit of the finished upload, with a digest that does not match its %d bytes, succeeded", L)
+			}
+			env.Probe("c04:closing-request-again-wrong-digest")
+		}
+		if _, err := r.st.Mem.ResolveBlob(r.ctx, r.repo, wrong); err == nil {
+			env.Failf("C04/commit/wrong-digest-stored", "after a refused second commit the registry holds a blob %s", wrong)
+		}
+		br, err := r.st.Mem.GetBlob(r.ctx, r.repo, dig)
+		if err != nil {
+			env.Failf("C04/final/missing", "the committed blob is gone after a refused second commit: %v", err)
+		}
+		if data, _ := readAll(br); !bytes.Equal(data, r.content) {
+			env.Failf("C04/final/bytes", "the committed blob changed after a refused second commit (%d bytes, want %d)", len(data), L)
+		}
+	}
 	_ = ocimem.New
 }
 
